@@ -297,6 +297,11 @@ func c16Run(c lib.Case, env *lib.Env) lib.Result {
 	ctx, cancel := context.WithCancel(context.Background())
 	defer cancel()
 	sc := lib.NewSched(s.Sched, s.SchedSeed)
+	again := s.Consumer == "failfast" && s.Cancel != "none" && c.ID%2 == 0
+	if again {
+		// the first call's consumer goroutine stays parked (bounded) until the second call on the context is under way
+		sc.HoldPoint, sc.HoldMax = "val-consumer-returned", 3*time.Second
+	}
 	switch {
 	case s.Cancel == "before":
 		cancel()
@@ -331,8 +336,13 @@ func c16Run(c lib.Case, env *lib.Env) lib.Result {
 	v := lib.RunWithQuiescence(func() {
 		verr, panicked, stack = lib.Guard(func() error { return vctx.Validate(ctx, dir, sig) })
 	}, 25*time.Second)
-	sc.Finish()
-	lib.SetHook(nil)
+	if !again {
+		sc.Finish()
+		lib.SetHook(nil)
+	} else {
+		defer lib.SetHook(nil)
+		defer sc.Finish()
+	}
 	res.Add("validations", 1)
 	res.Add("hook_events", int64(len(sc.Events())))
 	res.SetAdd("interleaving_signatures", sc.Signature())
@@ -371,7 +381,7 @@ func c16Run(c lib.Case, env *lib.Env) lib.Result {
 		res.Add("runs_actually_cancelled", 1)
 		res.SetAdd("cancel_instants_hit", cancelClass(s.Cancel))
 	}
-	if s.Consumer == "failfast" && s.Cancel != "none" && c.ID%2 == 0 {
+	if again {
 		// the SAME validator context once more, this time left alone: it must return, and with the true verdict
 		var verr2 error
 		var p2 bool
@@ -379,7 +389,10 @@ func c16Run(c lib.Case, env *lib.Env) lib.Result {
 		v2 := lib.RunWithQuiescence(func() {
 			verr2, p2, st2 = lib.Guard(func() error { return vctx.Validate(context.Background(), dir, sig) })
 		}, 25*time.Second)
+		sc.Finish()
+		lib.SetHook(nil)
 		res.Add("validations_with_a_context_used_before", 1)
+		res.Add("first_call_consumer_goroutines_parked_until_the_second_call", int64(sc.Held))
 		switch {
 		case !v2.Returned:
 			res.Violate("validate-does-not-return:reused-context-after-"+cancelClass(s.Cancel), desc, v2.Report)
